@@ -147,9 +147,12 @@ class Ctx:
                     "rule": "", "samples": [], "histogram": {}, "streams": []}
         self.assumptions = []
         self.level = "proof"
-        self.bindir = os.path.join(BUILD, "bin", pid)
-        self.tmpdir = os.path.join(BUILD, "tmp", pid)
-        shutil.rmtree(self.tmpdir, ignore_errors=True)
+        # every run has its own build and scratch directories, so concurrent runs of the same check (or runs
+        # against a scratch copy via VERIF_REPO) never overwrite each other's binaries or op files
+        self.rundir = os.path.join(BUILD, "run", "%s.%d" % (pid, os.getpid()))
+        shutil.rmtree(self.rundir, ignore_errors=True)
+        self.bindir = os.path.join(self.rundir, "bin")
+        self.tmpdir = os.path.join(self.rundir, "tmp")
         os.makedirs(self.bindir, exist_ok=True)
         os.makedirs(self.tmpdir, exist_ok=True)
         self.scratch = tempfile.mkdtemp(prefix="polyverif-%s-" % pid)
@@ -644,6 +647,15 @@ class Ctx:
         with open(os.path.join(EVIDENCE, self.pid + ".json"), "w") as f:
             json.dump(ev, f, indent=1, sort_keys=True)
         shutil.rmtree(self.scratch, ignore_errors=True)
+        # keep the last run's op files under .build/tmp/<pid> for inspection; drop binaries and the run directory
+        try:
+            last = os.path.join(BUILD, "tmp", self.pid)
+            shutil.rmtree(last, ignore_errors=True)
+            os.makedirs(os.path.dirname(last), exist_ok=True)
+            shutil.move(self.tmpdir, last)
+        except Exception:
+            pass
+        shutil.rmtree(self.rundir, ignore_errors=True)
         for l in lines:
             print(l)
         print("%s %s: obligations %d/%d, evaluations %d, violations %d, known %d, %.1fs" % (
